@@ -62,8 +62,8 @@ theorem winv_step (cfg : Cfg) {s s' : State} (a : Action) (hI : WInv s) (h : ste
         · rename_i hf
           split at h
           · cases h
-            have hI1 : WInv { s with total := s.total + 1, conns := s.conns ++ [{ dead := false, ready := false, orphan := false }] } := by
-              apply winv_env (t := { s with total := s.total + 1, conns := s.conns ++ [{ dead := false, ready := false, orphan := false }] }) hI rfl (fun _ _ _ _ _ _ h => h) (Nat.le_refl _) (Nat.le_refl _)
+            have hI1 : WInv { s with total := s.total + 1 } := by
+              apply winv_env (t := { s with total := s.total + 1 }) hI rfl (fun _ _ _ _ _ _ h => h) (Nat.le_refl _) (Nat.le_refl _)
               intro i' x' k g _ _ hk hgg
               refine ⟨⟨hk, hgg⟩, ?_⟩
               intro ⟨a, b, c⟩
@@ -117,6 +117,17 @@ theorem winv_step (cfg : Cfg) {s s' : State} (a : Action) (hI : WInv s) (h : ste
                     have := hI.k8 i' z s.nextKey hz' (by simp [hpz, pcKey])
                     omega
                 exact hI.w i' z k g hz' hpz hk' hgg
+      · cases h
+    · cases h
+  | mk i =>
+    simp only [step] at h
+    split at h
+    · rename_i x hx
+      split at h
+      · cases h
+        have hI1 : WInv { s with conns := s.conns ++ [{ dead := false, ready := false, orphan := false }] } :=
+          winv_same hI rfl rfl rfl rfl rfl rfl rfl rfl
+        exact winv_setPc_nokey hI1 i x _ hx rfl
       · cases h
     · cases h
   | check i =>
